@@ -359,18 +359,39 @@ CHECKS = {
              "tuple to the extension built from /repo and projects table contents, fetched rows and rowcount; TraceEngine validates every call like any statement.",
         note=TRUST + "Quick: sequences of <= 2 calls (2 574 scenarios), thorough <= 3. Floats (incl. inf / nan), bool and very large integers as parameters, "
              "executemany and several cursors on one connection are not in this model."),
+    "C31": dict(
+        engine="cli", category="model_checking",
+        technique="explicit TLA+ reference model of RFC 4180 / JSON import and export (CsvJson.tla) with TLC-checked laws; TLC-enumerated scenarios (MC_Csv.tla) replayed into the CLI's real \\copy code (vq_cli); every step validated by TLC (TraceCsv.tla)",
+        design="DESIGN.md section 6 (C31), section 10",
+        text="CsvJson.tla: text is a sequence of code points; an RFC 4180 writer and a total parser (quoted fields, doubled quotes, embedded comma / LF / "
+             "CRLF, LF or CRLF record ends, optional final line end, header record), a JSON array-of-objects reader / writer, and the meaning of an "
+             "import: each record is 'must' (has to arrive as exactly that row), 'may' (the property leaves it open: padded numbers, JSON bool / nested "
+             "values, missing keys) or 'no' (cannot be data of the table: unknown key, non-number for a numeric column). JudgeImport demands ALWAYS: "
+             "every other table and the catalog unchanged, old rows kept, an import that reports an error changed nothing; for well-formed files: an "
+             "all-'must' file is not refused and the new rows equal the records as a multiset; the round trip import(export(rows)) = rows. TLC checks "
+             "the model's own laws (parse(write(x)) = x, parser totality, JSON read(write(d)) = d, the verdict operator flags dropped bystanders, lost "
+             "and extra rows). MC_Csv enumerates table contents over the value classes {plain, empty, comma, quote, LF, CRLF, the text NULL, a SQL "
+             "fragment, padded, number-looking, NULL, negative and large integers, a float} x {csv, json} and import files from the CSV grammar "
+             "(quoting, separators, line ends, wrong column counts, unterminated quotes, header variants) and JSON documents (keys with punctuation and "
+             "SQL fragments, unknown / missing / repeated keys, every JSON value type). vq_cli drives MetaCommand::parse + SqlExecutor::handle_copy + "
+             "DataIO (compiled from /repo by #[path]) and records file text and the whole database after every step.",
+        note=TRUST + "Driven as the REPL drives it, not through a terminal. Quick 717 scenarios, thorough 5 079. DATE / BOOLEAN / DECIMAL columns, file paths "
+             "with blanks or quotes, surrogate-pair escapes and exponent floats are outside the model; the empty unquoted CSV field may be NULL or '' for "
+             "VARCHAR; malformed files are only required to be safe."),
 }
 
 NOT_APPLICABLE = {
-    "C31": "no check was built in the time available (same technique planned: CsvJson.tla reference parsers, the CLI's data_io / copy handler compiled into a "
-           "harness binary, see DESIGN.md section 6); the exporter currently writes placeholder column names and Debug-formatted cells, so a check would "
-           "first need the repairs listed in DESIGN.md section 9",
 }
 
 PLANNED = "check not built yet (same technique planned, see DESIGN.md section 6); not claimed"
 
 HOOK_COMMITS = ["2f8c5872cefe0a8b8470394988dc531f4f461daa"]
 ENGINES = {
+    "cli": {
+        "path": "/verif/spec/CsvJson.tla",
+        "text": "TLA+ reference model of CSV (RFC 4180) and JSON import / export with the verdict operator JudgeImport (CsvJson.tla), scenario model "
+                "MC_Csv.tla, trace validation TraceCsv.tla; executed through vq_cli (the CLI's copy handler and DataIO compiled from /repo)",
+    },
     "total": {
         "path": "/verif/spec/Arith.tla",
         "text": "TLA+ models for the totality properties: exact boundary arithmetic (Arith.tla, MC_Arith), hostile statements (MC_Hostile), parser inputs (MC_Parser) "
